@@ -113,9 +113,23 @@ pub assume_specification [i16::wrapping_neg] (a: i16) -> (r: i16)
     ensures r as int == (if a == i16::MIN { a as int } else { -(a as int) });
 /// the characters a byte sequence decodes to (uninterpreted; nothing is decoded from nothing)
 pub uninterp spec fn chars_of(b: Seq<u8>) -> Seq<char>;
+/// token view of a text: what the downstream lexers see (blanks separate, every punctuation character is a token of its own).
+/// Uninterpreted for the texts the productions receive as parameters; literal tokens and decimal renderings are named.
+pub uninterp spec fn toks(s: Seq<char>) -> Seq<Seq<char>>;
+/// literal token number `id` of this run's table (printed at the top of the generated file)
+pub uninterp spec fn lit_tok(id: int) -> Seq<char>;
+/// decimal rendering of an integer by `{}` (uninterpreted; one token)
+pub uninterp spec fn dec_tok(n: int) -> Seq<char>;
 pub mod verif_io {
     use vstd::prelude::*;
     use super::OutLog;
+    use super::toks;
+    // R14: format!(lit, args..) in an emitting production -> a text whose token view is the literal's tokens interleaved with the
+    // token views of the arguments, in order (the extractor tokenises the literal; arguments are Strings -> toks(x@), integers -> dec_tok)
+    #[verifier::external_body]
+    pub fn fmt_toks(Ghost(t): Ghost<Seq<Seq<char>>>) -> (r: String)
+        ensures toks(r@) == t,
+    { String::new() }
     #[verifier::external_body]
     pub fn out0(Tracked(log): Tracked<&mut OutLog>, k: usize)
         ensures final(log).entries == old(log).entries.push(Seq::<u64>::empty()), final(log).lits == old(log).lits.push(k as int),
